@@ -258,6 +258,16 @@ func init() {
 		core.Registry[id].Uses = append(core.Registry[id].Uses, core.Use{E: eConc, Quick: n[0], Thorough: n[1]})
 		core.Registry[id].Rule += " Plus concurrent histories (contended caller-supplied ids, concurrent deletes of one id) checked for linearizability and audited at quiescence."
 	}
+	eReadFaults := &core.Engine{Name: "read-faults", Run: RunReadFaults}
+	for id, n := range map[string][2]int{"C08": {60, 1500}, "C01": {40, 1000}, "C02": {40, 1000}} {
+		core.Registry[id].Uses = append(core.Registry[id].Uses, core.Use{E: eReadFaults, Quick: n[0], Thorough: n[1]})
+		core.Registry[id].Rule += " Plus sorted / windowed / filtered queries with every store call failing in turn (the query may fail; a reported success must still be the exact answer)."
+	}
+	eConcDDL := &core.Engine{Name: "conc-ddl", Run: RunConcDDL}
+	for id, n := range map[string][2]int{"C02": {150, 4000}, "C07": {150, 4000}, "C14": {100, 2500}} {
+		core.Registry[id].Uses = append(core.Registry[id].Uses, core.Use{E: eConcDDL, Quick: n[0], Thorough: n[1], Race: id == "C07"})
+		core.Registry[id].Rule += " Plus index drop/re-creation next to 2-5 goroutines querying the indexed field of an unchanging collection (every answer, during and after, must be exactly the matching documents; readers are delayed after reading a record)."
+	}
 	// the directed scenario library runs in every check; a scenario that does not guard the property is a no-op
 	eDirected := &core.Engine{Name: "directed", Run: RunDirected}
 	for _, p := range core.Registry {
